@@ -68,7 +68,8 @@ SOURCES = [scopesuite.scope_tree, scopesuite.valid_scenario, with_till, same_not
 
 def run(tier, seed, drv):
     return msuite.standard_run(PID, 'C07', TAGS, tier, seed, drv, SOURCES, nontrivial=nontrivial, rule=RULE,
-                               n_quick=200, n_thorough=6000, probes=[('F10', F10_PROBE)], judge_extra=extra)
+                               n_quick=200, n_thorough=6000, probes=[('F10', F10_PROBE)], judge_extra=extra,
+                               optimized=100 if tier == 'quick' else 1000)
 
 
 def replay(data, drv):
